@@ -493,7 +493,11 @@ def shard_store(binary, seed, idx, count, tmp):
             if v is None:
                 if g is not None:
                     allok = False
-                    s.viol("C13:store:get:absent-key-returned-value", f"get of a key never stored/removed returned {R.show(gv, 60)}", det(key=key.hex()))
+                    # the reference does not find the key in the file either: iora's parser produced it while reloading
+                    # (a member name written as \u00XX read back as '?'), otherwise the store API is at fault
+                    misread = fileval is not None and fileval[0] == "o" and key not in fileval[1] and b"\\u" in filebytes
+                    s.viol("C13:parse:unicode-escape:wrong-code-point" if misread else "C13:store:get:absent-key-returned-value",
+                           f"get of key {key!r}, never stored (or removed), returned {R.show(gv, 60)} after reopen", det(key=key.hex()))
                 continue
             # what the reference reads from the file for this key = what a correct reload must return
             filev = fileval[1].get(key) if fileval is not None and fileval[0] == "o" else None
